@@ -47,7 +47,7 @@ func oracleFailures(c *hlib.Ctx, rq *mergeReq, st string, resps []*storepb.Serie
 		if anyFailed && (st == "ok") {
 			c.Violation("abort-strategy-succeeded-despite-failure", "a queried store failed but Series returned no error")
 		}
-		if !anyFailed && !storeWarn && st != "ok" {
+		if !anyFailed && !storeWarn && st != "ok" && !(st == "unavailable" && len(rq.stores) == 0) {
 			c.Violation("abort-strategy-failed-without-failure", "no store failed but Series returned "+st)
 		}
 		return
@@ -88,6 +88,11 @@ func oracleFailures(c *hlib.Ctx, rq *mergeReq, st string, resps []*storepb.Serie
 			have[k][keyOf(ch)] = true
 		}
 	}
+	var all []*storepb.Series
+	for _, ss := range per {
+		all = append(all, ss...)
+	}
+	collide := hasKeyCollision(all)
 	for i, ss := range per {
 		if failed[i] {
 			continue
@@ -98,7 +103,7 @@ func oracleFailures(c *hlib.Ctx, rq *mergeReq, st string, resps []*storepb.Serie
 				c.Violation("series-of-healthy-store-lost", fmt.Sprintf("store %s delivered %s, not in the answer", storeName(i), k))
 				continue
 			}
-			if !rq.dedup {
+			if !rq.dedup || collide {
 				continue
 			}
 			for _, ch := range s.Chunks {
